@@ -26,7 +26,10 @@ is Python with module-level names, so this is probed directly, with the closed f
     fresh arrays, lists refilled in place; d, p, q (and `gamma_mu_shape`, the mean/shape form used by the Gamma kernel) and
     both `log` values interleaved; every element against the mpmath closed form at the content the containers had at call
     time; a repeated call through the same memory must reproduce the earlier result bit for bit; results are KEPT and
-    compared again after the session; the containers passed in are compared with their content afterwards.  A function
+    compared again after the session.  The containers passed in are compared with their content after every call: a write into
+    one of them is a side effect and is TAGGED (`input-modified:<function>:<argument>`), not a violation - the property is about
+    values; a container whose intended content did not change is passed again without being refilled and nothing is repaired,
+    so what the write leads to shows in the values of the later calls, which are judged.  A function
     that refuses a vectorised form at its first use is tagged, not judged (vectorised calls are not promised);
   * seedhist: 8-20 generator calls in one process - several generators, several integer seeds (also one seed shared by different
     generators), n = 1 and n > 1, with unseeded draws, `seed=True`, `seed=RandomState`, re-seeding of the global generator in between:
@@ -62,7 +65,7 @@ RULE = ("per family in {exp, gamma, norm, chisq, unif, beta, pois, binom, nbinom
         "6 arguments in the support and 4 probabilities in (0.01, 0.99), log in {False, True}, nbinom by prob and by mu, both tails; "
         "per generator: integer seeds (0 included), n = 1 and n > 1.  A d/p/q case is non-trivial when some argument has 1e-6 < cdf < "
         "1-1e-6 and every provided function returned a number; a generator case when both seeded calls returned n draws.  "
-        "arrays cases: per family 20-35 vectorised d/p/q calls through buffers refilled in place (for every function: arguments A, B, A and parameters B, A through the same objects) (two argument sets, two parameter sets; x as "
+        "arrays cases: per family 20-35 vectorised d/p/q calls through buffers refilled in place (for every function: arguments A, A, B, A and parameters B, B, A through the same objects, refilled only when the content changes) (two argument sets, two parameter sets; x as "
         "float / int ndarray, list, view; parameters as Python scalars, numpy scalars, 0-d arrays or arrays refilled in place), non-trivial when "
         "some function accepted arrays, every accepted call returned and a buffer was re-used with changed content.  seedhist cases: 8-20 calls of "
         "1-3 generators x 1-2 integer seeds x n in {1, n>1} with unseeded / seed=True / RandomState-seeded calls and global re-seeding in between, "
@@ -544,8 +547,8 @@ def _run_dpq(case):
                     curv = abs(float(mpmath.diff(lambda t: ref_pdf(fam, p, t), x, 2))) * h * h   # truncation bound of the central difference
                     if abs(fdiff - dv[1]) > 1e-4 * max(abs(dv[1]), 1e-3) + 10 * curv + 1e-12 / h:
                         violation("p" + fam, "dp/dx!=d", "(p%s(x+h)-p%s(x-h))/2h = %r but d%s(x) = %r at x=%r (%s)" % (fam, fam, fdiff, fam, dv[1], x, p))
-    # vectorised use, the same argument objects handed in twice: values must be the scalar values (which the closed
-    # forms above have judged), and no call may write into the arrays it was given
+    # vectorised use, the same argument objects handed in twice: values (of both calls) must be the scalar values, which the
+    # closed forms above have judged; a write into the arrays given is tagged (side effect), its consequence is the second call's value
     if not viol:
         _vector_reuse(distn, fam, p, case, pos, kw, violation, tags)
     return {"nontrivial": bool(nontrivial and all_numbers), "mismatches": mism, "violations": viol, "tags": tags,
@@ -579,7 +582,8 @@ def _vector_reuse(distn, fam, p, case, pos, kw, violation, tags):
         names = ["first argument"] + ["parameter %d" % (i + 1) for i in range(len(par_arrs))] + list(kw_arrs)
         for nm, a, b in zip(names, keep, now):
             if a is not None and not np.array_equal(a, b, equal_nan=True):
-                violation(kind + fam, "mutates-argument", "%s%s wrote into the array passed as %s: %s -> %s (%s)" % (kind, fam, nm, a.tolist(), b.tolist(), p))
+                # a side effect, not a wrong value: tagged; the second call above received the modified arrays, its values are judged below
+                tags.append("input-modified:%s%s:%s" % (kind, fam, nm.replace(" ", "-")))
         if isinstance(outs[0], Exception):
             tags.append("vector:unsupported:" + kind + fam)      # vectorised calls are not promised; not judged
             if not isinstance(outs[1], Exception):
@@ -792,14 +796,14 @@ def _arrays_case(r, fam):
         return {"fn": r.choice(fns), "log": r.random() < 0.5, "set": r.randrange(2), "pset": r.randrange(2), "via": r.choice(["buffer", "buffer", "view", "fresh"])}
 
     ops = [rand_op() for _ in range(r.randint(3, 6))]
-    # the core history, for EVERY function of the family: arguments A, B, A and then parameters B, A through the same objects
+    # the core history, for EVERY function of the family: arguments A, A, B, A and then parameters B, B, A through the same objects
     core = []
     extra = r.choice(fns)
     for m in fns:
         for via in (["buffer", "view"] if m == extra else ["buffer"]):
             lg, ps = r.random() < 0.5, r.randrange(2)
-            blk = [{"fn": m, "log": lg, "set": i, "pset": ps, "via": via} for i in (0, 1, 0)]
-            blk += [{"fn": m, "log": lg, "set": 0, "pset": j, "via": via} for j in (1 - ps, ps)]
+            blk = [{"fn": m, "log": lg, "set": i, "pset": ps, "via": via} for i in (0, 0, 1, 0)]       # 0 twice: passed again as it is
+            blk += [{"fn": m, "log": lg, "set": 0, "pset": j, "via": via} for j in (1 - ps, 1 - ps, ps)]
             core.append(blk)
     r.shuffle(core)
     for blk in core:
@@ -875,19 +879,24 @@ def _run_arrays(case):
     # ---- the caller's persistent containers
     nx, nu = len(case["xs"][0]), len(case["us"][0])
     xdtype = int if case["x_form"] == "int_array" else float
-    store = {}
+    store, filled = {}, {}
 
     def first_container(fn, si, via):
         vals = case["us"][si] if fn == "q" else case["xs"][si]
         n = len(vals)
         form = "float_array" if fn == "q" and case["x_form"] == "int_array" else case["x_form"]
         dt = int if form == "int_array" else float
+        # a persistent container is refilled in place only when its intended content changes; otherwise the caller passes it again as
+        # it is (whatever a callee may have done to it is then visible in the values of this call)
         if form == "list":
             if via == "fresh":
                 return list(vals), None
-            lst = store.setdefault(("first-list", fn == "q"), [])
-            lst[:] = list(vals)                      # the same list object, refilled in place
-            return lst, ("first-list", fn == "q")
+            key = ("first-list", fn == "q")
+            lst = store.setdefault(key, [])
+            if filled.get(key) != si:
+                lst[:] = list(vals)                  # the same list object, refilled in place
+            filled[key] = si
+            return lst, key
         shape = (n, 1) if form == "column" else (n,)
         arr = np.array(vals, dtype=dt).reshape(shape)
         if via == "fresh":
@@ -895,11 +904,15 @@ def _run_arrays(case):
         if via == "buffer":
             key = ("first-buf", fn == "q")
             b = store.setdefault(key, np.empty(shape, dtype=dt))
-            b[...] = arr
+            if filled.get(key) != si:
+                b[...] = arr
+            filled[key] = si
             return b, key
         key = ("first-block", fn == "q")
         blk = store.setdefault(key, np.full((3 * n,) + shape[1:], 0.5 if fn == "q" else 1, dtype=dt))
-        blk[n:2 * n] = arr
+        if filled.get(key) != si:
+            blk[n:2 * n] = arr
+        filled[key] = si
         return blk[n:2 * n], key                    # a NEW view object over the same memory
 
     def par_container(name, value, n, tagq):
@@ -916,7 +929,9 @@ def _run_arrays(case):
         key = ("par", name, tagq)
         shape = (n, 1) if case["x_form"] == "column" else (n,)     # per-observation parameters have the shape of the observations
         a = store.setdefault(key, np.empty(shape, dtype=int if is_int else float))
-        a[...] = value                               # the same parameter array, refilled in place
+        if filled.get(key) != value:
+            a[...] = value                           # the same parameter array, refilled in place when the parameter changes
+        filled[key] = value
         return a
 
     unsupported, used_ok = set(), set()
@@ -982,12 +997,16 @@ def _run_arrays(case):
             if not ok:
                 bad.append((i, g, e[1]))
         if bad:
-            # classification only: the same call with fresh copies of everything
+            # classification only: the same call with new containers holding the intended content
             hist = False
             try:
+                f1 = first_container(fn, si, "fresh")[0]
+                shape_ = (n, 1) if case["x_form"] == "column" else (n,)
+                def fresh_par(v, c):
+                    return np.full(shape_, v, dtype=np.asarray(c).dtype) if isinstance(c, np.ndarray) and np.ndim(c) > 0 else copy.deepcopy(c)
                 with np.errstate(all="ignore"):
-                    again = np.asarray(f(copy.deepcopy(snap[0]), *[copy.deepcopy(c) for c in snap[1:1 + len(pos_c)]],
-                                         **{k: copy.deepcopy(c) for k, c in zip(kw_c, snap[1 + len(pos_c):])}), float).ravel()
+                    again = np.asarray(f(f1, *[fresh_par(v, c) for (_, v), c in zip(pos_v, pos_c)],
+                                         **dict({k: fresh_par(v, kw_c[k]) for k, v in kw_v}, **({"log": log} if "log" in formals else {}))), float).ravel()
                 hist = not np.array_equal(again, out, equal_nan=True)
             except Exception:
                 pass
@@ -1003,15 +1022,14 @@ def _run_arrays(case):
                     violation(name, "not-reproduced", "%s = %s but the identical call at operation %d gave %s" % (label, out.tolist(), first_seen[k2][0], first_seen[k2][1].tolist()))
             else:
                 first_seen[k2] = (idx, out.copy())
-        # ---- the containers are the caller's
+        # ---- the containers are the caller's.  A write into one of them is a side effect: TAGGED, not a violation; nothing is repaired,
+        #      so the calls that receive the same containers again show (in their values) what it leads to
         now = [first] + pos_c + list(kw_c.values())
-        names = ["the first argument"] + [k for k, _ in pos_v] + list(kw_c)
+        names = ["first-argument"] + [k for k, _ in pos_v] + list(kw_c)
         for nm, a, b in zip(names, snap, now):
             same = np.array_equal(np.asarray(a), np.asarray(b), equal_nan=False) if not (a is None or isinstance(a, bool)) else a is b or a == b
             if not same:
-                violation(name, "mutates-argument", "%s wrote into the container passed as %s: %r -> %r" % (label, nm, np.asarray(a).tolist(), np.asarray(b).tolist()))
-                if isinstance(b, np.ndarray) and b.shape == np.shape(a):
-                    b[...] = a
+                tags.append("input-modified:%s:%s" % (name, nm))
     for label, name, res, snap in kept:
         if not np.array_equal(np.asarray(res), np.asarray(snap), equal_nan=True):
             violation(name, "kept-result-changed", "the result of %s was %s when returned and is %s after later calls" % (label, np.asarray(snap).tolist(), np.asarray(res).tolist()))
